@@ -23,10 +23,21 @@ import (
 	"fmt"
 	"math/bits"
 	"os"
+	"runtime"
 	"strconv"
 )
 
 var ckOvf bool
+
+// ckRt: a Go run-time error (division by zero, index out of range, nil map write, …) was recovered.
+// NeoVM turns such errors into an uncatchable FAULT; the harness reports that shape under its own key.
+var ckRt bool
+
+func ck_rt(r any) {
+	if _, ok := r.(runtime.Error); ok {
+		ckRt = true
+	}
+}
 
 func ck_add(a, b int) int {
 	c := a + b
@@ -115,13 +126,16 @@ func main() {
 		for ti, t := range e.tuples {
 			rp := call(e.resetP, e.fP, t)
 			rc := rp
-			ckOvf = false
+			ckOvf, ckRt = false, false
 			if e.fC != nil {
 				rc = call(e.resetC, e.fC, t)
 			}
 			ov := 0
 			if ckOvf {
 				ov = 1
+			}
+			if ckRt {
+				ov += 2
 			}
 			fmt.Fprintf(out, "%s %d %d %s | %s\n", e.tag, ti, ov, rp, rc)
 		}
@@ -131,6 +145,7 @@ func main() {
 
 type goRes struct {
 	ovf     bool
+	rtrec   bool // a run-time error was recovered on the Go side
 	plain   string // "ok <canon>" or "panic"
 	checked string
 }
@@ -284,7 +299,7 @@ func runBatch(dir string, progs []*Prog) (map[string]goRes, map[int]string, erro
 			if len(fs) != 5 {
 				continue
 			}
-			res[fs[0]+" "+fs[1]+" "+fs[2]] = goRes{ovf: fs[3] == "1", plain: fs[4], checked: parts[1]}
+			res[fs[0]+" "+fs[1]+" "+fs[2]] = goRes{ovf: fs[3] == "1" || fs[3] == "3", rtrec: fs[3] == "2" || fs[3] == "3", plain: fs[4], checked: parts[1]}
 		}
 		return res, dropped, nil
 	}
